@@ -49,6 +49,12 @@ THEOREMS = [
     "C05_cmp_current_witness",
     "C05_cmp_broadcast_witness",
     "C05_cmp_typed_sound",
+    "C05_forest_hand_run_ok",
+    "C05_hand_run_witness",
+    "C05_ser_transparent",
+    "C05_ser_stale_record_witness",
+    "C05_for_transparent",
+    "C05_for_no_rebuild_witness",
 ]
 RULE = (
     "twin histories: (node) every history up to length L over {set v, run, submit, complete, clearFailed, cancel, "
@@ -152,8 +158,10 @@ def _gen_tree_ops(rng, n):
             e = ["remove", k]
         elif r < 0.85:
             e = ["pickle"]
-        elif r < 0.93:
+        elif r < 0.91:
             e = ["exec", k, rng.choice(["ctl", "ctl-pickle", "ctl-cloudpickle", "none"])]
+        elif r < 0.95:
+            e = ["handrun", k, rng.randrange(1, 6)]
         else:
             e = None
         if e is not None:
@@ -236,9 +244,48 @@ def gen_cases(rng, tier):
     for where in ("node", "wf", "macro", "wfmacro"):
         for x, y in (pairs if where == "node" or tier != "quick" else pairs[:40]):
             yield {"kind": "vals", "where": where, "seq": [x, y, x, x]}
+    # several declared outputs, the function returning them as a tuple / list / generator / iterator / view: what run()
+    # RETURNS (type included) must be the same for a real run, a run served from the cache, and the twin
+    hows = ["tuple", "list", "gen", "iter", "dictkeys"]
+    for h1 in hows:
+        for h2 in hows:
+            yield {"kind": "vals", "where": "multi", "seq": [h1 + ":1", h1 + ":1", h2 + ":1", h2 + ":2", h1 + ":2", h1 + ":2"]}
     for _ in range(60 if tier == "quick" else 1500):
         yield {"kind": "vals", "where": rng.choice(["node", "node", "wf", "macro", "wfmacro"]),
                "seq": [rng.choice(VAL_TOKENS) for _ in range(rng.randint(3, 8))]}
+    # a child run by hand between two runs of the graph (with another input, then the input put back)
+    for sh in shapes:
+        for sel in range(3 if tier == "quick" else 8):
+            R = ["run"]
+            yield {"kind": "tree", "shape": sh, "ops": [R, ["handrun", sel, 4], R, R]}
+            yield {"kind": "tree", "shape": sh, "ops": [R, R, ["handrun", sel, 4], ["handrun", sel + 1, 5], R]}
+    # `_serialize_result`: the job writes its result to a file, the future is withheld, run() picks the file up
+    zops = ["zset1", "zset2", "zset3", "zrun", "zsubmit", "zwork", "zdeliver"]
+    if tier != "quick":
+        for h in _it.product(["zset1", "zset2", "zrun", "zsubmit", "zwork", "zdeliver"], repeat=5):
+            if "zsubmit" in h:
+                yield {"kind": "ser", "ops": ["zset1", "zrun"] + list(h)}
+    for _ in range(150 if tier == "quick" else 2500):
+        yield {"kind": "ser", "ops": [rng.choice(zops + ["zrun", "zsubmit", "zwork"]) for _ in range(rng.randint(4, 14))]}
+    # for-loop nodes as cached composites: hand edits inside the body between runs
+    for where in ("alone", "wf"):
+        for as_df in (False,):
+            for _ in range(40 if tier == "quick" else 800):
+                ops = [["run"]]
+                for _ in range(rng.randint(1, 5)):
+                    r = rng.random()
+                    if r < 0.4:
+                        ops.append(["editbody", rng.randrange(4), rng.choice("bc"), rng.randrange(1, 6)])
+                    elif r < 0.5:
+                        ops.append(["wirebody", rng.randrange(4), rng.randrange(4)])
+                    elif r < 0.7:
+                        ops.append(["looped", [rng.randrange(1, 6) for _ in range(rng.choice([2, 2, 3, 1]))]])
+                    elif r < 0.8:
+                        ops.append(["broadcast", rng.randrange(1, 6)])
+                    ops.append(["run"])
+                    if rng.random() < 0.3:
+                        ops.append(["run"])
+                yield {"kind": "for", "where": where, "ops": ops}
     # an input with several connections: a second connection (it takes priority), then only the priority order changes
     for sh in shapes:
         for sel in range(6 if tier == "quick" else 20):
@@ -296,6 +343,9 @@ def corpus():
     yield {"kind": "node", "ops": ["set2", "run", "set6", "run", "clearfailed", "run", "submit"]}
     yield {"kind": "wf", "ops": [["run"], ["rewire", 2, "a", 0], ["run"]], "macro": False}
     yield {"kind": "wf", "ops": [["run"], ["setinner", 1, "a", "y"], ["run"]], "macro": False}
+    yield {"kind": "ser", "ops": ["zset1", "zrun", "zset2", "zsubmit", "zwork", "zrun", "zset1", "zrun"]}  # C05-12
+    yield {"kind": "for", "where": "alone", "ops": [["run"], ["editbody", 1, "b", 4], ["run"], ["run"]]}  # C05-10
+    yield {"kind": "tree", "shape": _tree_shapes()[0], "ops": [["run"], ["handrun", 0, 4], ["run"]]}  # KF-C05-10
     yield {"kind": "switch", "factory": "inputs_to_list", "n": 3}  # KF-C05-8
     yield {"kind": "switch", "factory": "dataclass_node", "n": 2}
     # a value assigned to a CONNECTED input survives a cache hit (no fetch) and takes effect after a disconnect (KF-C05-7)
@@ -845,6 +895,14 @@ def _resolve(host, op, spares=None):
                         if not is_root and _rank(comp, s.label) >= _rank(comp, c.label):
                             continue
                         cands.append(["connect2", path, c.label, ch.label, s.label])
+            elif kind == "handrun":
+                # a child of the root none of whose inputs is connected (nothing upstream to consult)
+                # (a function node: a macro run by hand re-pushes values through its links, which the code's key holds and
+                # the model does not — the code then misses where the model would hit, cf. the fetch cases)
+                if is_root and not _is_comp(c) and hasattr(c.outputs, "o") and not any(ch.connected for ch in c.inputs):
+                    ch = next((ch for ch in c.inputs if _code(ch.value) is not None), None)
+                    if ch is not None:
+                        cands.append(["handrun", path, c.label, ch.label, op[2]])
             elif kind == "exec":
                 if hasattr(c.outputs, "o"):
                     cands.append(["exec", path, c.label, op[2]])
@@ -890,6 +948,20 @@ def _apply_tree(host, op, use_cache, sched=None, spares=None):
             return "unit", host
         if op[0] == "setin":
             _at(host, op[1]).children[op[2]].inputs[op[3]].value = _val(op[4])
+            return "unit", host
+        if op[0] == "handrun":
+            child = host.children[op[2]]
+            ch = child.inputs[op[3]]
+            keep = ch.value
+            ch.value = _val(op[4])
+            from .execsim import Instrument
+
+            try:
+                with Instrument(sched):  # children on executors complete under the same deterministic scheduler
+                    child.run(emit_ran_signal=False)  # by hand, outside a run of the graph; nothing downstream is pushed
+            finally:
+                sched.drain()
+            ch.value = keep
             return "unit", host
         if op[0] in ("connect2", "reprio"):
             comp = _at(host, op[1])
@@ -991,6 +1063,30 @@ def _run_tree(host, sched):
         sched.drain()
 
 
+_HAND = None
+
+
+def _probe_handrun():
+    """does a child run by hand drop the record of the workflow above it ("FP", proposed) or not ("F", /repo)"""
+    global _HAND
+    if _HAND is None:
+        from pyiron_workflow import Workflow
+
+        from . import nodes
+
+        wf = Workflow("hp", autoload=None)
+        wf.n0 = nodes.F0()
+        try:
+            wf.run()
+            wf.n0.run(a="zz", emit_ran_signal=False)
+            wf.n0.inputs.a.value = "d"
+            wf.set_run_signals_to_dag_execution()
+            _HAND = "F" if wf.cache_hit else "FP"
+        except Exception:  # noqa: BLE001
+            _HAND = "F"
+    return _HAND
+
+
 _TREE_PROBE = None
 
 
@@ -1034,6 +1130,8 @@ def _run_tree_case(case):
     a = _build_tree(case["shape"], True)
     b = _build_tree(case["shape"], False)
     sa, sb = Scheduler([], max_points=5000), Scheduler([], max_points=5000)
+    fonly = [False]  # a child was run by hand: only the whole-tree model (F lines) follows that
+    hvariant = _probe_handrun()
     spa, spb = {}, {}  # nodes that were replaced out, per (path, label): candidates for a swap-back
     for h in (a, b):
         for _, comp in _comps(h):
@@ -1079,11 +1177,18 @@ def _run_tree_case(case):
                 obs.append(f"key {key}" if key is not None else "key ?")
                 # the whole tree of caches: which function nodes executed in the cached graph (the rest hit a cache)
                 obs.append(f"F hit={str(hit).lower()} c={_outs(a)} calls={','.join(executed)}")
+                if _outs(a) != _outs(b):
+                    # a stale answer (the oracle reports it): what the code does next — its re-fetch pushes the stale
+                    # value through value links, which its key holds — is beyond the model; the comparison stops here
+                    obs.append("exc")
             else:
                 obs.append("exc")
             continue
         idx, before_conns = None, []
-        if cop[0] in ("setin", "rewire", "connect2", "reprio"):
+        hand_keep, n_hand = None, len(nodes.CALL_LOG)
+        if cop[0] == "handrun":
+            hand_keep = _code(a.children[cop[2]].inputs[cop[3]].value)
+        if cop[0] in ("setin", "rewire", "connect2", "reprio", "handrun"):
             child = _at(a, cop[1]).children.get(cop[2])
             if child is not None:
                 idx = [ch.label for ch in child.inputs].index(cop[3])
@@ -1095,6 +1200,7 @@ def _run_tree_case(case):
             # the model needs the class of the instance that comes back
             cop = cop + [_cls_id(type(spa[(tuple(cop[1]), cop[2])][-1]).__name__)]
         ra, a = _apply_tree(a, cop, True, sa, spa)
+        hand_calls = sorted(f"f{e[0]}(" + ",".join(_term(x) for x in e[1:]) + ")" for e in nodes.CALL_LOG[n_hand:])
         rb, b = _apply_tree(b, cop, False, sb, spb)
         if cop[0] == "pickle" and ra == "unit":
             after = []
@@ -1111,7 +1217,13 @@ def _run_tree_case(case):
         if ra != "unit" or rb != "unit" or changed:
             obs.append("exc")  # the comparison with the model stops here
             continue
-        if cop[0] in ("connect2", "reprio"):
+        if cop[0] == "handrun":
+            fonly[0] = True
+            mlines += [f"tsetin - {_lid(cop[2])} {idx} v{cop[4]}", f"thandrun {_lid(cop[2])}",
+                       f"tsetin - {_lid(cop[2])} {idx} v{hand_keep}"]
+            child = a.children[cop[2]]
+            obs.append(f"F hand {_lid(cop[2])} out={_term(child.outputs.o.value)} calls={','.join(hand_calls)}")
+        elif cop[0] in ("connect2", "reprio"):
             # predicted, not read back: the upstream named by the edit moves to the front of what the channel had
             rest = [u for u in before_conns if u != cop[4]]
             mlines.append(f"tsetin {_path_str(cop[1])} {_lid(cop[2])} {idx} m" + ".".join(str(_lid(u)) for u in [cop[4]] + rest))
@@ -1121,8 +1233,8 @@ def _run_tree_case(case):
             mlines.append(f"tsetin {_path_str(cop[1])} {_lid(cop[2])} {idx} c{_lid(cop[4])}")
         elif cop[0] not in ("pickle", "exec"):
             mlines.append(_model_line(cop))
-    return {"obs": obs, "rows": rows, "mlines": mlines, "hits": hits, "special": 0,
-            "stats": {"tree_cases": 1, **probe, "tree_hits": hits, "tree_runs": sum(1 for r in rows if r["resolved"] == ["run"]),
+    return {"obs": obs, "rows": rows, "mlines": mlines, "hits": hits, "special": 0, "fonly": fonly[0], "hvariant": hvariant,
+            "stats": {"tree_cases": 1, **probe, "hand_run_" + hvariant: 1, "tree_hits": hits, "tree_runs": sum(1 for r in rows if r["resolved"] == ["run"]),
                       **depth_hist}}
 
 
@@ -1319,7 +1431,15 @@ def _run_vals_case(case):
 
     def build(use_cache):
         where = case["where"]
-        if where == "node":
+        if where == "multi":
+            h = nc.Multi(label="n")
+
+            def setter(v):
+                h.inputs.how.value, h.inputs.x.value = v
+
+            def get(r):
+                return f"{type(r).__name__}:{list(r) if hasattr(r, '__iter__') else r}"
+        elif where == "node":
             h = nc.Desc(label="n")
             setter = lambda v: setattr(h.inputs.x, "value", v)  # noqa: E731
             get = lambda r: r  # noqa: E731
@@ -1345,7 +1465,7 @@ def _run_vals_case(case):
         for h, st, gt in ((a, seta, geta), (b, setb, getb)):
             k = len(nc.DESC_CALLS)
             try:
-                st(_mkval(tok))
+                st(_mkval(tok) if case["where"] != "multi" else (tok.split(":")[0], int(tok.split(":")[1])))
                 r = "ret:" + str(gt(h.run()))
             except Exception as e:  # noqa: BLE001
                 r = f"exc:{type(e).__name__}"
@@ -1375,7 +1495,187 @@ def _vals_model_input(case):
     return lines, descs
 
 
+class _SilentExec:
+    """an executor that does the job when told (`work`: the job itself writes the result file) and reports back only when
+    told (`deliver`); one slot each, like the model"""
+
+    def __new__(cls):
+        from concurrent.futures import Executor, Future
+
+        class _S(Executor):
+            def __init__(self):
+                self.job, self.done = None, None
+
+            def submit(self, fn, /, *args, **kwargs):
+                fut = Future()
+                self.job = (fut, fn, args, kwargs)
+                return fut
+
+            def work(self):
+                if self.job is not None:
+                    fut, fn, args, kwargs = self.job
+                    self.job = None
+                    try:
+                        self.done = (fut, fn(*args, **kwargs), None)
+                    except BaseException as e:  # noqa: BLE001
+                        self.done = (fut, None, e)
+
+            def deliver(self):
+                if self.done is not None:
+                    fut, res, exc = self.done
+                    self.done = None
+                    fut.set_running_or_notify_cancel()
+                    fut.set_exception(exc) if exc is not None else fut.set_result(res)
+
+        return _S()
+
+
+def _run_ser_case(case):
+    from pyiron_workflow.channels import NOT_DATA
+    from pyiron_workflow.mixin.run import ReadinessError
+
+    from . import nodes_c05 as nc
+
+    nc.reset({})
+    twins = []
+    for tag, uc in (("gc", True), ("gu", False)):
+        n = nc.G(label=tag)
+        n.use_cache, n.recovery = uc, None
+        n._serialize_result, n._do_clean = True, True
+        n.inputs.x.value = 1
+        twins.append((n, _SilentExec()))
+
+    def app(n, ex, op):
+        try:
+            if op.startswith("zset"):
+                n.inputs.x.value = int(op[4:])
+                return "unit"
+            if op == "zrun":
+                if not n.running:
+                    n.executor = None
+                return _res(n.run())
+            if op == "zsubmit":
+                if not n.running:
+                    n.executor = ex
+                return _res(n.run())
+            if op == "zwork":
+                ex.work()
+                return "unit"
+            if op == "zdeliver":
+                ex.deliver()
+                return "unit"
+        except ReadinessError:
+            return "readiness"
+        except ValueError:
+            return "waiting" if n.running else "exc:ValueError"  # still running, no result file yet
+        except RuntimeError:
+            return "locked" if op.startswith("zset") and n.running else "exc:RuntimeError"
+        except Exception as e:  # noqa: BLE001
+            return f"exc:{type(e).__name__}"
+        return "bad-op"
+
+    def vis(n):
+        o = n.outputs.o.value
+        return f"{n.inputs.x.value},{'ND' if o is NOT_DATA else 'F(%s)' % o[1]},{str(bool(n.running)).lower()}"
+
+    (a, ea), (b, eb) = twins
+    rows, obs, hits = [], [], 0
+    for op in case["ops"]:
+        nc.WHO = "c"
+        k = len(nc.CALLS["c"])
+        ra = app(a, ea, op)
+        nc.WHO = "u"
+        rb = app(b, eb, op)
+        settled = False
+        if op == "zsubmit" and ra.startswith("ret:") and rb == "future":
+            eb.work()
+            eb.deliver()
+            settled = True
+        if op in ("zrun", "zsubmit") and ra.startswith("ret:") and len(nc.CALLS["c"]) == k and not a.running:
+            hits += 1
+        line = f"c={ra} u={rb} vc={vis(a)} vu={vis(b)}"
+        rows.append({"op": op, "c": ra, "u": rb, "vc": vis(a), "vu": vis(b), "settled": settled, "line": line})
+        obs.append(line)
+    return {"obs": obs, "rows": rows, "hits": hits, "special": 1,
+            "stats": {"ser_cases": 1, "ser_hits": hits, "ser_pickups": sum(1 for r in rows if r["op"] in ("zrun", "zsubmit")
+                                                                           and r["vu"].endswith("false") and "F(" in r["u"]
+                                                                           and False),
+                      "ser_settled": sum(r["settled"] for r in rows)}}
+
+
+def _run_for_case(case):
+    from pyiron_workflow import Workflow, for_node
+
+    from . import nodes
+
+    nodes.reset()
+
+    def build(use_cache):
+        loop = for_node(nodes.F0, iter_on=("a",), output_as_dataframe=False, label="loop", a=[_val(1), _val(2)], b=_val(3))
+        if case["where"] == "wf":
+            host = Workflow("w", autoload=None)
+            host.recovery = None
+            host.loop = loop
+            host.z = nodes.F1(a=loop.outputs.o)
+        else:
+            host = loop
+            host.recovery = None
+        if not use_cache:
+            _cache_off(host)
+        return host, loop
+
+    def bodies(loop):
+        return [c for c in loop if c.label.startswith("body_")]
+
+    def apply(host, loop, op, use_cache):
+        try:
+            if op[0] == "run":
+                r = host.run()
+                if not use_cache:
+                    _cache_off(host)  # a rebuilt body is made of fresh nodes
+                return "ret:" + ";".join(f"{k}={_term(v) if not isinstance(v, list) else '[' + ','.join(_term(x) for x in v) + ']'}"
+                                         for k, v in dict(r).items())
+            bs = bodies(loop)
+            if op[0] == "editbody":
+                if not bs:
+                    return "skip"
+                bs[op[1] % len(bs)].inputs[op[2]].value = _val(op[3])  # by hand, inside the body
+                return "unit"
+            if op[0] == "wirebody":
+                if len(bs) < 2 or op[1] % len(bs) == op[2] % len(bs):
+                    return "skip"
+                bs[op[1] % len(bs)].inputs.c.connect(bs[op[2] % len(bs)].outputs.o)
+                return "unit"
+            if op[0] == "looped":
+                loop.inputs.a.value = [_val(c) for c in op[1]]
+                return "unit"
+            if op[0] == "broadcast":
+                loop.inputs.b.value = _val(op[1])
+                return "unit"
+        except Exception as e:  # noqa: BLE001
+            return f"exc:{type(e).__name__}"
+        return "bad-op"
+
+    (a, la), (b, lb) = build(True), build(False)
+    rows, hits = [], 0
+    for op in case["ops"]:
+        n0 = len(nodes.CALL_LOG)
+        ra = apply(a, la, op, True)
+        if op[0] == "run" and len(nodes.CALL_LOG) == n0 and ra.startswith("ret:"):
+            hits += 1
+        rb = apply(b, lb, op, False)
+        outs = lambda lp: ";".join(f"{k}={v!r}" for k, v in lp.outputs.to_value_dict().items()).replace(" ", "")  # noqa: E731
+        rows.append({"op": op, "resolved": op, "c": ra, "u": rb, "vc": outs(la), "vu": outs(lb)})
+    return {"obs": [], "rows": rows, "hits": hits, "special": 0,
+            "stats": {"for_cases": 1, "for_" + case["where"]: 1, "for_hits": hits,
+                      "for_body_edits": sum(1 for r in rows if r["op"][0] in ("editbody", "wirebody") and r["c"] == "unit")}}
+
+
 def run_impl(case):
+    if case["kind"] == "ser":
+        return _run_ser_case(case)
+    if case["kind"] == "for":
+        return _run_for_case(case)
     if case["kind"] == "vals":
         return _run_vals_case(case)
     if case["kind"] == "fetch":
@@ -1397,8 +1697,12 @@ def nontrivial(case, impl):
 
 
 def model_input(case, impl):
+    if case["kind"] == "ser":
+        return [(f"zset {op[4:]}" if op.startswith("zset") else op) for op in case["ops"]]
+    if case["kind"] == "for":
+        return []
     if case["kind"] == "vals":
-        return _vals_model_input(case)[0] if case["where"] == "node" else []
+        return _vals_model_input(case)[0] if case["where"] == "node" else []  # "multi" and the composites: oracle only
     if case["kind"] == "switch":
         return []
     if case["kind"] in ("tree", "fetch"):
@@ -1431,6 +1735,15 @@ def _diff_variants(mine, variants, ops=None):
 
 
 def diff(case, impl, model):
+    if case["kind"] == "for":
+        return None  # twin oracle; the Lean side is C05_for_transparent / C05_for_no_rebuild_witness
+    if case["kind"] == "ser":
+        mine = []
+        for r in impl["rows"]:
+            if r["settled"]:
+                break
+            mine.append(r["line"])
+        return _diff_variants(mine, {"Z": [l[2:] for l in model if l.startswith("Z ")]}, case["ops"])
     if case["kind"] == "vals":
         if case["where"] != "node":
             return None  # composites around the node have caches of their own: twin oracle only
@@ -1466,15 +1779,22 @@ def diff(case, impl, model):
                 break  # a failed run: the model has no failures at this level; compared up to here
             mine.append(l)
         variants = {}
+        ftag = impl.get("hvariant", "F") + " "
+        flines = ["F " + l[len(ftag):] for l in model if l.startswith(ftag)]
+        if impl.get("fonly"):
+            mine = [l for l in mine if l.startswith("F ")]
+            if any(l == "bad-op" for l in model):
+                return {"index": 0, "impl": "<ops>", "model": "bad-op", "variant": "-"}
+            return _diff_variants(mine, {ftag.strip(): flines})
         for tag in ("Tcur", "Tprop"):
-            out = []
+            out, fi = [], iter(flines)
             for l in model:
                 if l.startswith(tag + " "):
                     out.append(l[len(tag) + 1:])
                 elif l.startswith(tag + "key "):
                     out.append("key " + l[len(tag) + 4:])
                 elif l.startswith("F "):
-                    out.append(l)
+                    out.append(next(fi, l))
             variants[tag] = out
         if any(l == "bad-op" for l in model):
             return {"index": 0, "impl": "<ops>", "model": "bad-op", "variant": "-"}
@@ -1522,7 +1842,7 @@ def oracle(case, impl):
         same_ret = c == u or (r.get("settled") and c.startswith("ret:"))
         if r.get("settled"):
             # value returned from the cache must equal what the uncached job produced
-            same_ret = c == "ret:" + r["vu"].split(",")[1] if case["kind"] == "node" else same_ret
+            same_ret = c == "ret:" + r["vu"].split(",")[1] if case["kind"] in ("node", "ser") else same_ret
         if not same_ret or r["vc"] != r["vu"]:
             trig = _trigger(case, impl, k)
             fails.append({"clause": "cached-differs-from-uncached",
@@ -1556,6 +1876,12 @@ def _trigger(case, impl, k):
             if u == "future":
                 return "while-in-flight"
         return "other"
+    if case["kind"] == "ser":
+        return "after-pick-up-from-result-file" if any(r["op"] == "zwork" for r in rows[:k]) else "serialized-run"
+    if case["kind"] == "for":
+        return "after-hand-edit-of-loop-body" if any(r["op"][0] in ("editbody", "wirebody") for r in rows[:k]) else "for-loop"
+    if case["kind"] == "vals" and case["where"] == "multi":
+        return "returned-object-of-a-multi-output-node"
     if case["kind"] == "vals":
         # which earlier value does the stale answer belong to, and what does `==` say about the pair
         cur = _mkval(rows[k]["op"])
@@ -1571,6 +1897,8 @@ def _trigger(case, impl, k):
         for j in range(k - 1, -1, -1):
             res = rows[j].get("resolved")
             if res and res[0] not in ("run",) and rows[j]["c"] == "unit":
+                if any((rows[i].get("resolved") or [""])[0] == "handrun" for i in range(k)):
+                    return "after-child-run-by-hand"
                 return f"after-{'nested-' if len(res) > 1 and res[1] else ''}{res[0]}"
         return "other"
     for j in range(k - 1, -1, -1):
